@@ -3,7 +3,7 @@ import itertools
 
 from .. import taps
 from ..core import canon_hash
-from ..direct import DirectRun, gen_deep_cancel_history, gen_history, gen_tie_history
+from ..direct import DirectRun, gen_deep_cancel_history, gen_expiry_history, gen_history, gen_tie_history
 from ..tracker import BookTracker
 
 RULE = (
@@ -33,6 +33,10 @@ def budget(tier):
 
 
 def gen_case(rng, tier, idx):
+    if idx % 10 in (2, 3, 4):
+        c = gen_expiry_history(rng, tier)
+        c["drive"] = "direct"
+        return c
     if idx % 10 in (5, 6):
         c = gen_tie_history(rng, tier)
         c["drive"] = "direct"
